@@ -283,7 +283,39 @@ def build_args(call):
             return {"add": lambda: x + y, "sub": lambda: x - y, "neg": lambda: -x, "abs": lambda: abs(x), "mul": lambda: x * k,
                     "div": lambda: x / k, "lt": lambda: x < y, "eq": lambda: x == y, "hp": lambda: x.hp(), "dms": lambda: (x.dms() if hasattr(x, "dms") else x.ddm())}[op]()
         return f, [_angle_obj(a["c1"], a["x"]), _angle_obj(a["c2"], a["y"]), a["op"], a["k"]]
+    if fn == "ntv2":
+        nt = repo.mod("geodepy.ntv2reader")
+        path = _ntv2_fixture()
+
+        def f(la, lo, fwd, method):
+            g = nt.read_ntv2_file(path)
+            return (tf.ntv2_2d(g, la, lo, fwd, method), nt.interpolate_ntv2(g, la, lo, method))
+        return f, [a["lat"], a["lon"], a["forward"], a["method"]]
     raise HarnessError("unknown call %r" % fn)
+
+
+_NTV2 = []
+
+
+def _ntv2_fixture():
+    """A fixed synthetic .gsb with a 1-degree parent and a 0.25-degree child (written once per process tree, same bytes)."""
+    import os
+    import tempfile
+    from .oracles import ntv2_file as NF
+    if _NTV2 and os.path.exists(_NTV2[0]):
+        return _NTV2[0]
+    path = os.path.join(tempfile.gettempdir(), "gvp_c09_fixture_%d.gsb" % os.getuid())
+    parent = {"name": "PARENT", "parent": "NONE", "s_lat": -36.0 * 3600, "e_long": -150.0 * 3600, "lat_inc": 3600.0, "long_inc": 3600.0,
+              "nrows": 6, "ncols": 7, "fields": [[1.0, 0.5, 0.25] + [0.0] * 9, [-2.0, 0.125, -0.5, 0.125] + [0.0] * 8,
+                                                 [0.5] + [0.0] * 11, [0.25] + [0.0] * 11]}
+    child = {"name": "CHILD", "parent": "PARENT", "s_lat": -34.0 * 3600, "e_long": -148.0 * 3600, "lat_inc": 900.0, "long_inc": 900.0,
+             "nrows": 9, "ncols": 9, "fields": [[100.0, 0.5, 0.25] + [0.0] * 9, [50.0, 0.125, -0.5] + [0.0] * 9,
+                                               [7.0] + [0.0] * 11, [8.0] + [0.0] * 11]}
+    tmp = path + ".%d" % os.getpid()
+    NF.write(tmp, [NF.sanitise(parent), NF.sanitise(child)])
+    os.replace(tmp, path)
+    _NTV2[:] = [path]
+    return path
 
 
 # ------------------------------------------------------------------------------------------------ strategies for calls
@@ -403,6 +435,10 @@ def call_strategy(families=False):
         _fd("angle_op", c1=st.sampled_from(["dec", "hp", "gon", "dms", "ddm"]), c2=st.sampled_from(["dec", "hp", "gon", "dms", "ddm"]),
             x=S.floats(-180, 180), y=S.floats(-180, 180), op=st.sampled_from(["add", "sub", "neg", "abs", "mul", "div", "lt", "eq", "hp", "dms"]),
             k=st.sampled_from([2, 0.5, -3, 1.5])),
+    ]
+    pool += [
+        _fd("ntv2", lat=S.floats(-35.9, -31.1), lon=S.floats(144.1, 149.9), forward=st.booleans(), method=st.sampled_from(["bilinear", "bicubic"])),
+        _fd("ntv2", lat=S.floats(-33.9, -32.1), lon=S.floats(146.1, 147.9), forward=st.booleans(), method=st.sampled_from(["bilinear", "bicubic"])),
     ]
     twins14 = st.deferred(lambda: st.sampled_from(_twin_names(True))).map(lambda n: {"name": n})
     twins7 = st.deferred(lambda: st.sampled_from(_twin_names(False))).map(lambda n: {"name": n})
